@@ -418,4 +418,138 @@ Proof.
     intros H. injection H as <-. cbn. split; reflexivity.
 Qed.
 
+(* ---- every overwrite shape, null: as stop/new revision -------------------------- *)
+
+Lemma ow_history_spec ow :
+  ow_history ow = true <-> ow = OwTrue \/ exists t, ow = OwSet true t.
+Proof.
+  destruct ow as [| |h t]; cbn; split; intros H; try discriminate; try reflexivity.
+  - destruct H as [H|[t H]]; discriminate.
+  - left; reflexivity.
+  - subst h. right. exists t. reflexivity.
+  - destruct H as [H|[t' H]]; [discriminate | injection H as -> _; reflexivity].
+Qed.
+
+(* what a successful step can have been *)
+Lemma step_x_cases o tgt ao src stop ow b' :
+  step_x o g tgt ao src stop ow = Ok b' ->
+  b' = tgt \/
+  (exists st, update_revisions g tgt ao src st (ow_history ow) = Ok b') \/
+  (stop = StopNull /\ ow_history ow = true /\ set_null tgt ao = Ok b').
+Proof.
+  assert (BP : forall st, basic_push g tgt ao src st (ow_history ow) = Ok b' ->
+               b' = tgt \/ exists st', update_revisions g tgt ao src st' (ow_history ow) = Ok b').
+  { intros st H. unfold basic_push in H. destruct st as [s|].
+    - destruct (opt_eqb (tip tgt) (Some s)); [left; injection H as <-; reflexivity | right; exists (Some s); exact H].
+    - right. exists None. exact H. }
+  assert (UX : update_revisions_x g tgt ao src stop (ow_history ow) = Ok b' ->
+               b' = tgt \/ (exists st, update_revisions g tgt ao src st (ow_history ow) = Ok b') \/
+               (stop = StopNull /\ ow_history ow = true /\ set_null tgt ao = Ok b')).
+  { unfold update_revisions_x. destruct stop as [| |r]; intros H.
+    - right; left. exists None. exact H.
+    - destruct (ow_history ow) eqn:E; [right; right; repeat split; exact H | left; injection H as <-; reflexivity].
+    - right; left. exists (Some r). exact H. }
+  destruct o; cbn [step_x]; [exact UX|].
+  unfold basic_push_x. destruct stop as [| |r]; intros H.
+  - destruct (BP None H) as [X|X]; [left; exact X | right; left; exact X].
+  - destruct (tip tgt); [apply UX; exact H | left; injection H as <-; reflexivity].
+  - destruct (BP (Some r) H) as [X|X]; [left; exact X | right; left; exact X].
+Qed.
+
+(* without "history" in the overwrite argument -- False, set(), {"tags"} -- no
+   pull and no push, whatever the stop revision (null: included), drops the old tip *)
+Theorem no_silent_drop_x o tgt ao src stop ow t b' :
+  ow_history ow = false -> tip tgt = Some t ->
+  step_x o g tgt ao src stop ow = Ok b' ->
+  exists t', tip b' = Some t' /\ is_ancestor g t t' = true.
+Proof.
+  intros E Ht H. apply step_x_cases in H as [->|[[st H]|[_ [X _]]]].
+  - exists t. split; [exact Ht | apply (is_ancestor_refl g t W)].
+  - rewrite E in H. apply (no_silent_drop tgt ao src st t b' Ht H).
+  - congruence.
+Qed.
+
+(* append-only, every shape: a successful pull/push keeps the old tip on the new
+   left-hand history -- in particular the tip never becomes null: *)
+Theorem append_only_keeps_tip_x o tgt src stop ow t b' :
+  tip tgt = Some t ->
+  step_x o g tgt true src stop ow = Ok b' ->
+  exists t', tip b' = Some t' /\ In t (lefthand g t').
+Proof.
+  intros Ht H. apply step_x_cases in H as [->|[[st H]|[_ [_ X]]]].
+  - exists t. split; [exact Ht | apply In_lefthand_self].
+  - apply (append_only_keeps_tip tgt src st (ow_history ow) t b' Ht H).
+  - unfold set_null in X. rewrite Ht in X. discriminate.
+Qed.
+
+(* null: as the new revision of a non-empty append-only branch is refused, by
+   set_last_revision_info, generate_revision_history and overwriting pull/push alike *)
+Theorem append_only_null_refused tgt t :
+  tip tgt = Some t ->
+  set_null tgt true = Err AppendRevisionsOnlyViolation /\
+  (forall n, direct_set g tgt true n None = Err AppendRevisionsOnlyViolation) /\
+  generate_history g tgt true None = Err AppendRevisionsOnlyViolation /\
+  (forall o src ow, ow_history ow = true ->
+     step_x o g tgt true src StopNull ow = Err AppendRevisionsOnlyViolation).
+Proof.
+  intros Ht.
+  assert (X : set_null tgt true = Err AppendRevisionsOnlyViolation) by (unfold set_null; rewrite Ht; reflexivity).
+  split; [exact X|]. split; [intros n; exact X|]. split; [exact X|].
+  intros o src ow E. destruct o; cbn [step_x]; unfold basic_push_x, update_revisions_x; rewrite ?Ht, E; exact X.
+Qed.
+
+(* direct setters on an append-only branch: success keeps the old tip on the left-hand history *)
+Theorem direct_append_only tgt t b' :
+  tip tgt = Some t ->
+  ((exists n new, direct_set g tgt true n new = Ok b') \/ (exists new, generate_history g tgt true new = Ok b')) ->
+  exists t', tip b' = Some t' /\ In t (lefthand g t').
+Proof.
+  intros Ht H.
+  assert (S : forall n s, set_last_revision_info g tgt true n s = Ok b' ->
+              exists t', tip b' = Some t' /\ In t (lefthand g t')).
+  { intros n s X. apply set_info_ok in X as [-> X]. exists s. split; [reflexivity | apply (X eq_refl t Ht)]. }
+  assert (N : set_null tgt true = Ok b' -> exists t', tip b' = Some t' /\ In t (lefthand g t')).
+  { unfold set_null. rewrite Ht. discriminate. }
+  destruct H as [[n [new H]]|[new H]].
+  - destruct new as [s|]; cbn in H; [apply (S n s H) | apply N; exact H].
+  - destruct new as [s|]; cbn [generate_history] in H; [|apply N; exact H].
+    destruct (distance_known g (known_of tgt) s) as [n|]; [apply (S n s H) | discriminate].
+Qed.
+
+(* null: as stop revision without "history": nothing happens *)
+Theorem null_stop_unchanged o tgt ao src ow :
+  ow_history ow = false -> step_x o g tgt ao src StopNull ow = Ok tgt.
+Proof.
+  intros E. destruct o; cbn [step_x]; unfold basic_push_x, update_revisions_x; rewrite E;
+    [reflexivity | destruct (tip tgt); reflexivity].
+Qed.
+
+(* master first, for any step *)
+Theorem run_gen_error_unchanged f w e w' :
+  run_gen f w = (Some e, w') -> local w' = local w.
+Proof.
+  unfold run_gen. destruct (master w) as [[m mao]|].
+  - destruct (f m mao); [|intros H; injection H as _ <-; reflexivity].
+    destruct (f (local w) (local_ao w)); intros H; [discriminate|].
+    injection H as _ <-. reflexivity.
+  - destruct (f (local w) (local_ao w)); intros H; [discriminate|].
+    injection H as _ <-. reflexivity.
+Qed.
+
+Theorem run_gen_ok f w w' :
+  run_gen f w = (None, w') ->
+  f (local w) (local_ao w) = Ok (local w') /\
+  match master w with
+  | None => master w' = None
+  | Some (m, mao) => exists m', master w' = Some (m', mao) /\ f m mao = Ok m'
+  end.
+Proof.
+  unfold run_gen. destruct (master w) as [[m mao]|].
+  - destruct (f m mao) as [m'|]; [|discriminate].
+    destruct (f (local w) (local_ao w)) as [l'|]; [|discriminate].
+    intros H. injection H as <-. cbn. split; [reflexivity|]. exists m'. split; reflexivity.
+  - destruct (f (local w) (local_ao w)) as [l'|]; [|discriminate].
+    intros H. injection H as <-. cbn. split; reflexivity.
+Qed.
+
 End BranchUpdate.
